@@ -208,6 +208,8 @@ def mutate_cfg(rng, ast):
     rules = a["ch"]
     order = list(range(len(rules)))
     rng.shuffle(order)
+    if rng.random() < 0.5:
+        order.sort(key=lambda k: rules[k]["k"] not in ("CcAny", "CcXor"))      # prefer a change that the text form does not show
     for k in order:
         r = rules[k]
         if r["k"] == "AtMost":
@@ -217,6 +219,13 @@ def mutate_cfg(rng, ast):
             lo, hi = r["ch"][0]["b"]
             r["ch"][0]["b"] = [lo + 1, hi - 1] if hi - lo >= 2 else [lo - 1, hi + 1]   # same lower+upper
             return a, "leaf_bounds_same_sum"
+        if r["k"] == "CcAny" and r.get("default") and r["default"][0] in [c["id"] for c in r["ch"]] and len(r["ch"]) >= 2 and rng.random() < 0.5:
+            # the same rule written by hand without the default: plain Any(default, Any(rest)) under the same id - the text
+            # form (ids, signs, values, bounds) of the two configurators coincides, the default priorities do not
+            d0 = r["default"][0]
+            rest = [c for c in r["ch"] if c["id"] != d0]
+            rules[k] = {"k": "Any", "ch": [{"k": "str", "id": d0}, {"k": "Any", "ch": rest, "id": None}], "id": r["id"]}
+            return a, "untagged_restructured_twin"
         if r["k"] in ("CcAny", "CcXor") and rng.random() < 0.7:
             ids = [c["id"] for c in r["ch"]]
             cur = (r.get("default") or [None])[0]
@@ -278,10 +287,11 @@ def build_family(fam):
 def gen_cfg_family(rng):
     names = list("abcdef")[:rng.randint(3, 6)]
     base = {"k": "Stingy", "ch": [rule_ast(rng, names, i) for i in range(rng.randint(1, 3))], "id": "cfg" if rng.random() < 0.9 else None}
-    fam, kinds = [base], []
+    fam, kinds, pairs = [base], [], []
     for _ in range(rng.randint(1, 3)):
-        m, kind = mutate_cfg(rng, rng.choice(fam))
-        fam.append(m); kinds.append(kind)
+        src = rng.randrange(len(fam))
+        m, kind = mutate_cfg(rng, fam[src])
+        fam.append(m); kinds.append(kind); pairs.append((src, len(fam) - 1, kind))
     if rng.random() < 0.3:
         fam.append({"k": "addto", "src": rng.randrange(len(fam)), "rule": dict(rule_ast(rng, names, 9), id="RX")})
         kinds.append("derived_by_add")
@@ -296,6 +306,12 @@ def gen_cfg_family(rng):
         fam.append({"k": "addto", "src": len(fam) - 1, "rule": new}); kinds.append("twin_derived_by_add")
         twin = (len(fam) - 2, len(fam) - 1)
     ops = []
+    for src, dst, kind in pairs:
+        # a look-alike pair is always asked for the same thing right after each other (either order)
+        if kind != "identical_copy" and rng.random() < 0.7:
+            first, second = (src, dst) if rng.random() < 0.5 else (dst, src)
+            what = rng.choice(["poly", "poly", "prios"])
+            ops += [{"op": what, "obj": first}, {"op": what, "obj": second}]
     if twin:
         ops += [{"op": rng.choice(["poly", "prios"]), "obj": twin[1]}, {"op": "prios", "obj": twin[0]}, {"op": "poly", "obj": twin[0]}]
     for _ in range(rng.randint(4, 12)):
